@@ -492,8 +492,11 @@ def run(run):
         "letter or multi-character, several <start> alternatives) + "
         f"{340 if thorough else 28} random CFGs (2-4 nonterminals, 1-3 alternatives of 1-3 symbols, epsilon rate 0/.15/.3, "
         "1-2 character terminals, <start> with 2 alternatives in 15%, <start> on a right-hand side occasionally); cyclic "
-        f"unit/nullable grammars rejected. Strings: ALL strings of length <= {N} (random CFGs) / <= 5 (list grammars; with 3 "
-        "letters: <= 5 over the first two, <= 4 over all three in the quick tier) over the grammar's alphabet + strings with a "
+        "unit/nullable grammars rejected. Strings, quick tier: ALL strings of length <= 4 (random CFGs) / <= 5 (list grammars; with 3 "
+        "letters: <= 5 over the first two, <= 4 over all three) over the grammar's alphabet; thorough tier (bounded volume per "
+        "grammar): ALL strings while their cumulative number stays <= 400 (3 letters: length <= 5, 2 letters: <= 7) + 100 random "
+        "strings of the next length; inputs more than one character longer than the first input that reaches the cap of 8 "
+        "trees are dropped (the model enumerates all trees); + strings with a "
         "foreign character + up to 6 random MEMBERS of the language that are up to 3 characters longer than the exhaustive "
         "bound. Entry points: EarleyParser.parse (all strings), EarleyParser.parse_on(w, nt) for every other nonterminal and "
         f"ISLaSolver.parse(w, nt, skip_check=True) for every nonterminal (length <= {3 if thorough else 2}). Compared: exception "
@@ -816,8 +819,11 @@ def run(run):
         "capped grammars are counted in the histogram); an out-of-fuel answer of the model would show up as a disagreement",
         "DerivationTree.from_parse_tree / to_parse_tree are structure-preserving (ISLaSolver.parse results compared as parse trees)"]
     run.cov["exhaustive"] = True
-    run.cov["exhaustive_scope"] = (f"per grammar: all strings of length <= {N} (separator-list grammars: <= 5) over the grammar's "
-                                   "alphabet (<= 3 letters); the grammars themselves are sampled")
+    run.cov["exhaustive_scope"] = (
+        ("per grammar: all strings while their cumulative number is <= 400 (3 letters: length <= 5; 2 letters: <= 7), cut one "
+         "character after the first input with >= 8 trees" if thorough else
+         "per grammar: all strings of length <= 4 (separator-list grammars: <= 5) over the grammar's alphabet (<= 3 letters)")
+        + "; the grammars themselves are sampled")
 
 
 def replay(path):
